@@ -4,18 +4,25 @@ Driver/DfaQuery.lean — commands of drv_dfa_query (C13, C14, C20).  Core only.
   COUNT  <dfa> k                → v  levels(0..k) × states(0..n-1) counts
   WORDS  <dfa> k                → words  levels(0..k) × states word lists
   MINMAX <dfa>                  → min <res> max <res> empty b finite <res>
-  CARD   <dfa>                  → card <res> len <res>
+  CARD   <dfa>                  → card <res> len <res>     (len = the builtin: `err OverflowError` from 2^63 on)
+  DAGLEN <edges> <V>            → N | longest path length   (`dagLongestPathLength` on the subgraph induced by V)
   ITER   <dfa> n maxLevels      → ok <words> <end> | err E
   RANDOM <dfa> k <choices>      → <res word>
   SUCCS  <dfa> <start> strict rev min max <keys> n fuel → words … end … first …
-  HISTORY <dfa> <keys0> q…      → per query: answer ; state snapshot ; pure-agreement flag
+  HISTORY <dfa> n q…            → per query: answer ; state snapshot ; pure-agreement flag
+                                  (queries: A C WO IO NX CARD LEN MIN MAX EMPTY FINITE RW SU FI SO CLR
+                                   MINI TOP OT; SO opens a successors generator advanced by NX)
+
+  NHISTORY <nfa> n q…           → per NFA query (A w | RD w | VC tag | OT tag): answer ; memo flag ; pure-agreement flag
 
 Symbols are their rank in Python's (code point) order, so the natural order is `key = id`.
 `<start>` is `N` or a word; `max` is `N` or a natural; `<keys>` lists the key value of every
 symbol rank.
 -/
+import AutomataVerif.Model.NFACache
 import AutomataVerif.Driver.Proto
 import AutomataVerif.Model.DFACache
+import AutomataVerif.Model.DFALen
 
 namespace AV.Driver.DfaQuery
 open AV AV.Proto AV.DFA
@@ -71,9 +78,21 @@ def cmdMinMax : P String := do
     "empty", showBool d.isEmpty,
     "finite", showRes showBool d.isFinite])
 
+def showLen : Except LenErr Nat → String
+  | .ok n => "ok " ++ toString n
+  | .error e => "err " ++ e.name
+
 def cmdCard : P String := do
   let d ← dfa
-  pure (" ".intercalate ["card", showRes toString d.cardinality, "len", showRes toString d.len])
+  pure (" ".intercalate ["card", showRes toString d.cardinality, "len", showLen d.lenBuiltin])
+
+/-- `nx.dag_longest_path_length(graph.subgraph(V))` through the contract function of the model
+(`none` = `NetworkXUnfeasible`), on an arbitrary digraph given by its edge list. -/
+def cmdDagLen : P String := do
+  let edges ← many (do let u ← int; let v ← int; pure (u, v))
+  let vs ← many int
+  let g : Digraph Int := { nodes := vs, edges := edges }
+  pure (showOptNat (dagLongestPathLength g.succ vs))
 
 /-- First `n` words of `iter(dfa)`: run the loop for more and more bodies. -/
 def iterFirst (d : D) (n maxLevels : Nat) : Res (List (List Int) × String) :=
@@ -159,7 +178,10 @@ def query : P (Query Int) := do
   | "RW" => let k ← nat; let cs ← many nat; pure (.randomWord k cs)
   | "SU" => let (s, o, key) ← succArgs; let n ← nat; let f ← nat; pure (.succs key s o n f)
   | "FI" => let (s, o, key) ← succArgs; let f ← nat; pure (.first key s o f)
+  | "SO" => let (s, o, key) ← succArgs; pure (.succOpen key s o)
   | "CLR" => pure .clearCache
+  | "MINI" => let tag ← nat; pure (.minify tag)
+  | "TOP" => let tag ← nat; pure (.toPartial tag)
   | "OT" => let tag ← nat; pure (.other tag)
   | _ => throw s!"unknown query {t}"
 
@@ -184,18 +206,70 @@ def showInst (s : Inst Int Int) : String :=
     flag s.memo.digraph, flag s.memo.isempty, flag s.memo.isfinite, flag s.memo.cardinality,
     flag s.memo.minLen, flag s.memo.maxLen]
 
+def showOpts (o : SuccOpts) : String :=
+  " ".intercalate [showBool o.strict, showBool o.reverse, toString o.minLen, showOptNat o.maxLen]
+
+/-- A printable signature of a generator object (a key function is shown by its values on the
+alphabet), used to compare the generator tables of `step` and `stepPure` at run time. -/
+def genSig (syms : List Int) : Gen Int Int → String
+  | .wordsNew k => s!"wn {k}"
+  | .wordsRun rest => "wr " ++ showWords rest
+  | .iterNew => "in"
+  | .iterRun i limit rest => s!"ir {i} {showOptNat limit} " ++ showWords rest
+  | .succNew key input o =>
+    "sn " ++ showInts (syms.map key) ++ " " ++ (match input with | none => "N" | some w => showWord w)
+      ++ " " ++ showOpts o
+  | .succRun o c st =>
+    "sr " ++ showOpts o ++ " " ++ showInts c.coacc ++ " " ++ toString c.first ++ " "
+      ++ showList (fun (e : Int × Option Int) => toString e.1 ++ ":" ++
+            (match e.2 with | none => "N" | some b => toString b)) c.symSucc
+      ++ " " ++ showList (fun (q : Option Int) => match q with | none => "N" | some b => toString b) st.states
+      ++ " " ++ showWord st.chars ++ " " ++ (match st.cand with | none => "N" | some b => toString b)
+      ++ " " ++ showBool st.shouldYield
+  | .raising e => "ra " ++ e.name
+  | .done => "dn"
+
 def cmdHistory : P String := do
   let d ← dfa
   let qs ← many query
-  let ext : Nat → Nat := fun t => t
-  let rec go : List (Query Int) → Inst Int Int → List (Gen Int) → List String → List String
+  let ext : Ext Int := { other := fun t => t, viaGraph := fun t _ => t }
+  let rec go : List (Query Int) → Inst Int Int → List (Gen Int Int) → List String → List String
     | [], _, _, acc => acc.reverse
     | q :: qs, s, gens, acc =>
       let r := d.step natKey ext s q
       let p := d.stepPure natKey ext gens q
-      let same := decide (r.2 = p.2) && decide (r.1.gens = p.1)
+      let same := decide (r.2 = p.2) && decide (r.1.gens.map (genSig d.syms) = p.1.map (genSig d.syms))
       go qs r.1 p.1 ((showAns r.2 ++ " ; " ++ showInst r.1 ++ " ; " ++ showBool same) :: acc)
   pure (" | ".intercalate (go qs Inst.fresh [] []))
+
+/-! ### NHISTORY (NFA instance: the `_get_lambda_closures` memo) -/
+
+def nquery : P (NFA.NQuery Int) := do
+  let t ← tok
+  match t with
+  | "A" => let w ← word; pure (.accepts w)
+  | "RD" => let w ← word; pure (.readStepwise w)
+  | "VC" => let tag ← nat; pure (.viaClosures tag)
+  | "OT" => let tag ← nat; pure (.other tag)
+  | _ => throw s!"unknown NFA query {t}"
+
+def showNAns : NFA.NAns Int → String
+  | .bool b => "bool " ++ showBool b
+  | .exn e => "exn " ++ e.name
+  | .configs cs e => "configs " ++ showList showSet cs ++ " " ++ showExn e
+  | .opaque t => "opaque " ++ toString t
+
+def cmdNHistory : P String := do
+  let n ← nfa
+  let qs ← many nquery
+  let ext : NFA.NExt Int := { other := fun t => t, viaTable := fun t _ => t }
+  let rec go : List (NFA.NQuery Int) → NFA.NInst Int → List String → List String
+    | [], _, acc => acc.reverse
+    | q :: qs, s, acc =>
+      let r := n.nstep ext s q
+      let same := decide (r.2 = n.nstepPure ext q)
+      go qs r.1 ((showNAns r.2 ++ " ; " ++ flag r.1.closures ++ " ; " ++ showBool same) :: acc)
+  pure (" | ".intercalate (go qs NFA.NInst.fresh []))
 
 def handle (cmd : String) (args : List String) : Except String String :=
   match cmd with
@@ -203,10 +277,12 @@ def handle (cmd : String) (args : List String) : Except String String :=
   | "WORDS" => run cmdWords args
   | "MINMAX" => run cmdMinMax args
   | "CARD" => run cmdCard args
+  | "DAGLEN" => run cmdDagLen args
   | "ITER" => run cmdIter args
   | "RANDOM" => run cmdRandom args
   | "SUCCS" => run cmdSuccs args
   | "HISTORY" => run cmdHistory args
+  | "NHISTORY" => run cmdNHistory args
   | "DFA_VALIDATE" => run (do let d ← dfa; pure (showRes (fun _ => "") d.validate)) args
   | "PING" => .ok "pong"
   | _ => .error s!"unknown command {cmd}"
